@@ -3,7 +3,7 @@ import os
 import subprocess
 import sys
 import time
-from protocol import Exc
+from protocol import Exc, StopStreams
 from debian_inspector import unsign
 
 ID = 'C16'
@@ -111,6 +111,8 @@ class Worker(object):
 
     def __init__(self):
         self.p = None
+        self.timeouts = 0
+        self.stopped = False
 
     def start(self):
         src = os.path.join(os.environ.get('VERIF_REPO', '/repo'), 'src')
@@ -123,8 +125,16 @@ class Worker(object):
             self.start()
         self.p.stdin.write((text.encode('utf-8').hex() + '\n').encode('ascii'))
         self.p.stdin.flush()
-        r, _, _ = select.select([self.p.stdout], [], [], OBS_TIMEOUT)
+        # after three run-away matches the time clause is already violated: wait less for the rest
+        r, _, _ = select.select([self.p.stdout], [], [], OBS_TIMEOUT if self.timeouts < 3 else 1.5)
         if not r:
+            self.timeouts += 1
+            if self.timeouts > 12 and not self.stopped:
+                self.stopped = True
+                self.p.kill()
+                self.p.wait()
+                self.p = None
+                raise StopStreams('remove_signature did not return within the time limit on %d inputs' % self.timeouts)
             self.p.kill()
             self.p.wait()
             self.p = None
